@@ -1,7 +1,7 @@
 (** The within-word matcher of Model/BashSem.v on glob-free text.
 
     1. On glob-free literals and a glob-free typed word both literal loops ([Pinned], [Fixed]) are the pure string
-       functions [lit_pure_pinned] / [lit_pure_fixed] (no pattern matching left).
+       functions [lit_pure_pinned] / [lit_loop_str] (no pattern matching left).
     2. With the literal array in decreasing length (what dfa.rs produces), the repaired loop
        - consumes a fully typed value [v] exactly (the first enabled literal equal to [v] wins, whatever longer or
          shorter literals exist and wherever else they are allowed);
@@ -10,20 +10,6 @@
 From CG Require Import Base.Prelude Model.Dfa Model.Glob Model.BashSem Proofs.GlobFacts.
 
 (** *** 1. the loops without glob *)
-Fixpoint lit_pure_fixed (complete : bool) (lits : list (N * string)) (st : list (N * N)) (sub : string) : step :=
-  match lits with
-  | [] => SNone
-  | (lid, lit) :: r =>
-    match assocN lid st with
-    | None => lit_pure_fixed complete r st sub
-    | Some to =>
-      if String.eqb lit sub then SCont to (String.length lit)
-      else if complete && String.prefix sub lit then SBreak
-      else if String.prefix lit sub then SCont to (String.length lit)
-      else lit_pure_fixed complete r st sub
-    end
-  end.
-
 Fixpoint lit_pure_pinned (lits : list (N * string)) (st : list (N * N)) (sub : string) : step :=
   match lits with
   | [] => SNone
@@ -52,10 +38,10 @@ Proof. intros H. unfold globm. now rewrite (glob_plain_prefix true p s H). Qed.
 
 Lemma lit_loop_fixed_plain complete st sub : forall lits,
     all_plain lits -> plain sub = true ->
-    lit_loop_fixed complete lits st sub = Ok (lit_pure_fixed complete lits st sub).
+    lit_loop_fixed complete lits st sub = Ok (lit_loop_str complete lits st sub).
 Proof.
   induction lits as [|[lid lit] r IH]; intros Hl Hs; [reflexivity|].
-  cbn [lit_loop_fixed lit_pure_fixed].
+  cbn [lit_loop_fixed lit_loop_str].
   assert (Hp : plain lit = true) by (apply (Hl lid lit); now left).
   specialize (IH (all_plain_tail _ _ Hl) Hs).
   destruct (assocN lid st) as [to|]; [|exact IH].
@@ -69,6 +55,18 @@ Proof.
   - cbn [obind andb].
     rewrite (globm_prefix lit sub Hp). cbn [obind].
     destruct (String.prefix lit sub); [reflexivity|exact IH].
+Qed.
+
+(** both repaired loops are the string loop: [Repaired] always (quoted operands), [Fixed] on glob-free text *)
+Definition strdom (v : variant) (lits : list (N * string)) (word : string) : Prop :=
+  v = Repaired \/ (all_plain lits /\ plain word = true).
+
+Lemma lit_loop_nonpinned v complete st sub lits :
+  v <> Pinned -> (v = Repaired \/ (all_plain lits /\ plain sub = true)) ->
+  lit_loop v complete lits st sub = Ok (lit_loop_str complete lits st sub).
+Proof.
+  intros Hv Hd. destruct v; [congruence| |reflexivity].
+  destruct Hd as [Hd|[Hl Hs]]; [discriminate|]. now apply lit_loop_fixed_plain.
 Qed.
 
 Lemma lit_loop_pinned_plain st sub : forall lits,
@@ -133,10 +131,10 @@ Fixpoint first_enabled (lits : list (N * string)) (st : list (N * N)) (v : strin
 Lemma fixed_consumes_value st v : forall lits to,
     sorted_desc lits ->
     first_enabled lits st v = Some to ->
-    lit_pure_fixed false lits st v = SCont to (String.length v).
+    lit_loop_str false lits st v = SCont to (String.length v).
 Proof.
   induction lits as [|[lid lit] r IH]; intros to Hs Hf; [discriminate|].
-  cbn [lit_pure_fixed first_enabled] in *.
+  cbn [lit_loop_str first_enabled] in *.
   destruct Hs as [Hlen Hs].
   destruct (assocN lid st) as [to'|] eqn:Ea.
   - destruct (String.eqb lit v) eqn:E.
@@ -162,10 +160,10 @@ Qed.
 Lemma fixed_stops_at_partial st p : forall lits,
     sorted_desc lits ->
     (exists id v to, In (id, v) lits /\ assocN id st = Some to /\ String.prefix p v = true /\ p <> v) ->
-    lit_pure_fixed true lits st p = SBreak.
+    lit_loop_str true lits st p = SBreak.
 Proof.
   induction lits as [|[lid lit] r IH]; intros Hs (id & v & to & Hin & Ha & Hp & Hne); [contradiction|].
-  cbn [lit_pure_fixed].
+  cbn [lit_loop_str].
   destruct Hs as [Hlen Hs].
   assert (Lv : (String.length p < String.length v)%nat).
   { pose proof (prefix_length _ _ Hp).
@@ -252,10 +250,10 @@ Lemma fixed_consumes_piece complete st sub : forall lits lid lit to,
     In (lid, lit) lits ->
     assocN lid st = Some to ->
     String.prefix lit sub = true ->
-    lit_pure_fixed complete lits st sub = SCont to (String.length lit).
+    lit_loop_str complete lits st sub = SCont to (String.length lit).
 Proof.
   induction lits as [|[i l] r IH]; intros lid lit to Hu Hin Ha Hp; [contradiction|].
-  cbn [lit_pure_fixed].
+  cbn [lit_loop_str].
   destruct (assocN i st) as [t|] eqn:Ea.
   - destruct (Hu i l t (or_introl eq_refl) Ea) as [-> ->].
     rewrite Ha in Ea. injection Ea as <-.
